@@ -185,9 +185,42 @@ type impl struct {
 	views   []kvstore.KVStore
 	batches []kvstore.BatchedMutations
 	log     []logEnt
+	flushes int // Flush calls that reached the mapdb views (counted by the spy below every wrapper stack)
 }
 
-func newImpl() *impl { return &impl{views: []kvstore.KVStore{mapdb.NewMapDB()}} }
+// spy sits directly on every mapdb view (below all flushkv/debug wrappers), forwards everything to the real
+// view and counts the Flush calls that arrive: makes flushkv's flush-on-write observable.
+type spy struct {
+	kvstore.KVStore
+	im *impl
+}
+
+func (s *spy) Flush() error {
+	s.im.flushes++
+	return s.KVStore.Flush()
+}
+
+func (s *spy) WithRealm(r kvstore.Realm) (kvstore.KVStore, error) {
+	n, err := s.KVStore.WithRealm(r)
+	if err != nil {
+		return nil, err
+	}
+	return &spy{n, s.im}, nil
+}
+
+func (s *spy) WithExtendedRealm(r kvstore.Realm) (kvstore.KVStore, error) {
+	n, err := s.KVStore.WithExtendedRealm(r)
+	if err != nil {
+		return nil, err
+	}
+	return &spy{n, s.im}, nil
+}
+
+func newImpl() *impl {
+	im := &impl{}
+	im.views = []kvstore.KVStore{&spy{mapdb.NewMapDB(), im}}
+	return im
+}
 
 func dirArgs(d int) []kvstore.IterDirection {
 	switch d {
@@ -351,10 +384,11 @@ func (im *impl) do(o op) (res obs) {
 
 // runHistory executes h on the real code under a watchdog; a hang is reported as outcome "hang" for the
 // operation that did not return (the remaining operations are not executed).
-func runHistory(h []op) ([]obs, []logEnt, bool) {
+func runHistory(h []op) ([]obs, []logEnt, int, bool) {
 	type result struct {
 		o   []obs
 		log []logEnt
+		nfl int
 	}
 	done := make(chan result, 1)
 	progress := make(chan obs, len(h)+1)
@@ -366,11 +400,11 @@ func runHistory(h []op) ([]obs, []logEnt, bool) {
 			res = append(res, x)
 			progress <- x
 		}
-		done <- result{res, im.log}
+		done <- result{res, im.log, im.flushes}
 	}()
 	select {
 	case r := <-done:
-		return r.o, r.log, false
+		return r.o, r.log, r.nfl, false
 	case <-time.After(20 * time.Second):
 		var res []obs
 		for {
@@ -385,7 +419,7 @@ func runHistory(h []op) ([]obs, []logEnt, bool) {
 		for len(res) < len(h) {
 			res = append(res, obs{Kind: "hang"})
 		}
-		return res, nil, true
+		return res, nil, 0, true
 	}
 }
 
@@ -411,6 +445,17 @@ type ref struct {
 	views   []refView
 	batches []refBatch
 	log     []logEnt
+	flushes int
+}
+
+func nFlush(stack []wrap) int {
+	n := 0
+	for _, w := range stack {
+		if w.flush {
+			n++
+		}
+	}
+	return n
 }
 
 func newRef() *ref { return &ref{m: map[string][]byte{}, views: []refView{{}}} }
@@ -482,6 +527,7 @@ func (r *ref) do(o op) obs {
 			return closed
 		}
 		b := r.batches[o.H]
+		r.flushes += nFlush(b.stack)
 		for _, x := range b.ops {
 			k := string(b.realm) + string(x.A)
 			if x.K == "bset" {
@@ -533,8 +579,15 @@ func (r *ref) do(o op) obs {
 	case "iterkeys":
 		r.logCall(v.stack, 2, o.A)
 	}
+	if o.K == "flush" {
+		r.flushes++
+	}
 	if r.closed {
 		return closed
+	}
+	switch o.K {
+	case "set", "delete", "delprefix", "clear":
+		r.flushes += nFlush(v.stack) // flush-on-write: once per flushkv wrapper
 	}
 	switch o.K {
 	case "withrealm":
@@ -579,7 +632,7 @@ func (r *ref) do(o op) obs {
 }
 
 // judge: the property itself on the implementation's observations.
-func judge(h []op, o []obs, lg []logEnt, hung bool) (bool, string) {
+func judge(h []op, o []obs, lg []logEnt, nfl int, hung bool) (bool, string) {
 	if hung {
 		for i, x := range o {
 			if x.Kind == "hang" {
@@ -594,6 +647,9 @@ func judge(h []op, o []obs, lg []logEnt, hung bool) (bool, string) {
 		if want.coq() != o[i].coq() || o[i].Kind == "other" {
 			return false, fmt.Sprintf("op %d %s: implementation %s, one-map reference %s", i, x.coq(), o[i], want)
 		}
+	}
+	if nfl != r.flushes {
+		return false, fmt.Sprintf("%d Flush calls reached the store, flush-on-write reference %d", nfl, r.flushes)
 	}
 	if len(lg) != len(r.log) {
 		return false, fmt.Sprintf("debug log has %d entries, reference %d", len(lg), len(r.log))
@@ -866,9 +922,15 @@ func nontrivial(h []op, o []obs) bool {
 	return wrote && read
 }
 
+var hungOnce bool // a call did not return: stop generating (every further history would wait for the watchdog)
+
 func emit(cf *vx.CasesFile, st *vx.Stats, h []op, tag string) {
-	o, lg, hung := runHistory(h)
-	cf.Add(fmt.Sprintf("mk %s %s %s", vx.ListOf(h, op.coq), vx.ListOf(o, obs.coq), vx.ListOf(lg, logEnt.coq)))
+	if hungOnce {
+		return
+	}
+	o, lg, nfl, hung := runHistory(h)
+	hungOnce = hung
+	cf.Add(fmt.Sprintf("mk %s %s %s %s", vx.ListOf(h, op.coq), vx.ListOf(o, obs.coq), vx.ListOf(lg, logEnt.coq), vx.Nat(nfl)))
 	parts := make([]string, len(h))
 	for i, x := range h {
 		parts[i] = x.coq()
@@ -887,6 +949,7 @@ func emit(cf *vx.CasesFile, st *vx.Stats, h []op, tag string) {
 		}
 	}
 	st.Count(fmt.Sprintf("log-entries:%d", min(len(lg), 5)))
+	st.Count(fmt.Sprintf("flushes:%d", min(nfl, 5)))
 	st.Case(strings.Join(parts, ";"), nontrivial(h, o))
 	st.CaseIndex = append(st.CaseIndex, map[string]any{"tag": tag, "history": h})
 	if tag == "random" {
@@ -896,7 +959,7 @@ func emit(cf *vx.CasesFile, st *vx.Stats, h []op, tag string) {
 		}
 		st.Sample(map[string]any{"history": parts, "observed": obsS}, 2)
 	}
-	if ok, why := judge(h, o, lg, hung); !ok {
+	if ok, why := judge(h, o, lg, nfl, hung); !ok {
 		st.Fail(map[string]any{"sig": "", "history": h, "why": why})
 	}
 }
@@ -918,6 +981,9 @@ func exhaustive(cf *vx.CasesFile, st *vx.Stats, length int) {
 		}
 		h = append(h, op{K: "iter", H: 1, Lim: 100}, op{K: "iterkeys", H: 2, Lim: 100, Dir: 2}, op{K: "get", H: 0, A: b(0, 0xff)})
 		emit(cf, st, h, "exhaustive")
+		if hungOnce {
+			return
+		}
 		k := length - 1
 		for k >= 0 {
 			idx[k]++
@@ -962,11 +1028,11 @@ func main() {
 		if err := json.Unmarshal(raw, &h); err != nil {
 			vx.Die("%v", err)
 		}
-		o, lg, hung := runHistory(h)
+		o, lg, nfl, hung := runHistory(h)
 		for i, x := range h {
 			fmt.Printf("%3d %-60s -> %s\n", i, x.coq(), o[i])
 		}
-		ok, why := judge(h, o, lg, hung)
+		ok, why := judge(h, o, lg, nfl, hung)
 		fmt.Printf("one-map reference agrees: %v %s\n", ok, why)
 		emit(cf, st, h, "replay")
 	case "exh":
@@ -975,7 +1041,7 @@ func main() {
 		for _, h := range directed() {
 			emit(cf, st, h, "directed")
 		}
-		for cf.Len() < *n {
+		for cf.Len() < *n && !hungOnce {
 			emit(cf, st, genHistory(r.Fork(), 4+r.Intn(*maxLen-3)), "random")
 		}
 	}
